@@ -447,6 +447,13 @@ def unwrap_field_base(e):
 def stream_loop(ck, R, F, b, tag):
     nx = calls(b, A("merger_iter_next"))
     ins = calls(b, A("writer_insert"))
+    dl = calls(b, A("merger_stream"))
+    if not nx and not ins and len(dl) == 1 and b.path != A("merger_stream"):
+        # delegation: the entries are streamed by Merger::write_into_stream_writer (whose own loop is checked under
+        # its name) into the writer handed over, and its error is propagated
+        from .errflow import propagated
+        ck.ob(R, f"stream-shape/{tag}", not b.in_loop(dl[0][0].bb) and propagated(F, b, dl[0][0]), f"{tag}: hands the merger to Merger::write_into_stream_writer once, error propagated", b, dl[0][0])
+        return
     ck.ob(R, f"stream-shape/{tag}", len(nx) == 1 and len(ins) == 1 and b.in_loop(nx[0][0].bb) and b.in_loop(ins[0][0].bb), f"{tag}: one MergerIter::next and one Writer::insert inside one loop", b)
     if len(nx) != 1 or len(ins) != 1:
         return
